@@ -8,41 +8,7 @@ V = Path(__file__).resolve().parent.parent
 ALL = [f"C{i:02d}" for i in range(1, 21)]
 
 # property -> (spec files, design section, text, note, technique)
-CLAIMED = {
-    "C03": (
-        "specs/Matryoshka.tla + MatryoshkaOps.tla + MatryoshkaTrace.tla",
-        "DESIGN.md 5/C03",
-        "TLC checks Envelope/MemoConsistent/ExpiredDoNotCount on every bucket x system-bounds state of a small grid and on every "
-        "reachable state of the proposal/replace/expire/bounds-change state machine; every TLC-enumerated state (installed through "
-        "three arrival orders incl. replaced and expired proposals) and every explored transition's history is replayed into the real "
-        "Matryoshka class and the recorded targets are validated by TLC against the trace specification (target = function of live "
-        "set and bounds; envelope on the code's value).",
-        "small scope (2-4 actors, integer grid up to +-3 W); floats beyond exact small integers not decided; distinct priorities",
-        "TLA+ spec model-checked with TLC; spec behaviours replayed into the real class; recorded traces validated by TLC trace spec",
-    ),
-    "C04": (
-        "specs/Matryoshka.tla + MatryoshkaOps.tla + MatryoshkaTrace.tla",
-        "DESIGN.md 5/C04",
-        "TLC checks the transcribed sweep against an independently written declarative definition (closest admissible value, "
-        "reported range honoured, adjust_to_bounds agreement, empty proposal = no proposal) over all states of a small grid; the same "
-        "predicates are then evaluated by TLC on what the real class returned (targets, get_status bounds, adjust_to_bounds, and the "
-        "target obtained when an actor prefers each grid value) for every enumerated state and replayed history.",
-        "small scope; the C04 reading fixed in DESIGN 5/C04 (zero preference may stay zero inside the zone)",
-        "TLA+ spec model-checked with TLC; spec behaviours replayed into the real class; recorded traces validated by TLC trace spec",
-    ),
-    "C14": (
-        "specs/PowerDistributor.tla + PowerDistributorTrace.tla",
-        "DESIGN.md 5/C14",
-        "TLC checks NoOverlap, PendingIsLatest, QuiescentLatestApplied, EnteredIncreasing, DisjointIndependent and, under weak "
-        "fairness, LastRequestApplied on the actor's state machine (send / receive / enter / resolve / exit / done-callback) for "
-        "2-3 groups and up to 5 requests; TLC-generated behaviours (every transition of the generation model plus simulated long "
-        "ones) are turned into injection schedules for the real PowerDistributingActor pumped one loop iteration at a time with a "
-        "probe ComponentManager; each recorded execution is validated by TLC: observation-only clauses (no overlap, latest wins at "
-        "every idle point and after the drain, also after a raising distribution) and existential conformance with the spec.",
-        "single-threaded asyncio: loop-iteration granularity is the complete schedule space; the distribution itself is replaced by a probe",
-        "TLA+ spec model-checked with TLC (safety + liveness); TLC behaviours drive the real actor; recorded traces validated by TLC trace spec",
-    ),
-}
+CLAIMED = {k: (v["spec"], v["design_ref"], v["text"], v["note"], v["technique"]) for k, v in json.loads((V / "tools" / "claims.json").read_text()).items()}
 
 NOT_YET = "check not built yet in this round (planned: see DESIGN.md section 5); not claimed until its specification is bound to the code"
 
